@@ -14,7 +14,7 @@ import core
 from coqemit import cstr, cZ
 
 LEVEL = "proof"
-THEOREMS = ["C18_pattern_pinned"]
+THEOREMS = ["C18_main", "C18_no_component_lost", "C18_pattern_pinned", "C18_trim_is_field_selection", "C18_nonvacuous"]
 DIALS = ["VERTICA", "CLICKHOUSE", "ORACLE", "MSSQL", "MYSQL", "POSTGRESQL", "REDSHIFT", "SQLITE", "SNOWFLAKE"]
 VALUES = [0, 1, 7, 10, 20, 100, 101, 110, 1000000]
 KEYS = ["years", "months", "days", "hours", "minutes", "seconds", "microseconds", "quarters", "weeks"]
